@@ -47,7 +47,12 @@ def gen_mj():
     scan_gt = re.search(r"current_weights_sum\s*\+\s*current\.1\s*>\s*\*threshold", csp) is not None
     skip_gt = re.search(r"if\s+current_weights_sum\s*>\s*\*threshold", csp) is not None
     refine_lt = re.search(r"sum\s*\+\s*weights\[permutation\[idx\]\]\s*<\s*threshold", csp) is not None
-    ulps = re.search(r"Ulps::default\(\)\.eq\(&threshold,", csp) is not None
+    # the Ulps comparison of the refinement: `.epsilon(0.0)` since 70b7d46, the default epsilon before
+    n_ulps = len(re.findall(r"Ulps::", csp))
+    ulps_zero = re.search(r"Ulps::default\(\)\s*\.epsilon\(\s*0\.0?\s*\)\s*\.eq\(\s*&threshold\s*,", csp) is not None
+    ulps_default = re.search(r"Ulps::default\(\)\s*\.eq\(\s*&threshold\s*,", csp) is not None
+    if n_ulps != 1 or ulps_zero == ulps_default:
+        raise Fail("the refinement is expected to use exactly one `Ulps::default()[.epsilon(0.0)].eq(&threshold, ..)`")
     bounded = re.search(r"while\s+idx\s*<\s*permutation\.len\(\)", csp) is not None
     # the exhausted scan puts the cut at the end of the slab (28ccbdd) instead of `scan.next().unwrap()`
     exhausted = (re.search(r"match\s+scan\.next\(\)\s*\{\s*Some\(v\)\s*=>\s*v\s*,\s*None\s*=>\s*\{[^}]*ret\.push\(permutation\.len\(\)\)", csp, re.S) is not None
@@ -69,7 +74,7 @@ def gen_mj():
     out += "Definition mj_scan_test_is_gt : bool := %s.\n" % coq_bool(scan_gt)
     out += "Definition mj_skip_test_is_gt : bool := %s.\n" % coq_bool(skip_gt)
     out += "Definition mj_refine_test_is_lt : bool := %s.\n" % coq_bool(refine_lt)
-    out += "Definition mj_refine_uses_default_ulps : bool := %s.\n" % coq_bool(ulps)
+    out += "Definition mj_refine_ulps_epsilon_is_zero : bool := %s.\n" % coq_bool(ulps_zero)
     out += "Definition mj_refine_bounded_by_len : bool := %s.\n" % coq_bool(bounded)
     out += "Definition mj_scan_exhaustion_puts_cut_at_end : bool := %s.\n" % coq_bool(exhausted)
     return out
@@ -94,7 +99,7 @@ PROP = dict(
     level="proof",
     release_too=True,   # thorough: half as many cases again against a release build (no overflow checks / debug assertions)
     rule="cases = stream x point family x weight family: streams main (positive integer-valued weights, 1 <= part_count <= n), "
-         "zero weights / one heavy element (the inputs that panicked before 28ccbdd), part_count > n, max_iter = 0 and "
+         "zero weights / one heavy element (the inputs that panicked before 28ccbdd), tiny weights z*2^-70 (the inputs that broke the balance bound before 70b7d46), part_count > n, max_iter = 0 and "
          "part_count = 0 (outside the contract); points 2-D/3-D uniform, clustered, collinear, coincident, duplicate "
          "coordinates, lattice, one outlier; weights uniform, random, skewed, one heavy, few heavy, large; max_iter 1..4; "
          "pools 1,2,4,8,16 (each case also run under one thread); distinct = distinct (D, coordinate bits, weights, "
@@ -113,7 +118,7 @@ PROP = dict(
         "weights are integer-valued f64 with sums below 2^53 (every f64 sum is exact, so rayon's summation order is irrelevant)",
         "part_count < 2^24 (exactly representable in f32) and pow(x, 1) = x, 2 <= ceil(n^(1/m)) <= n for n >= 2 (checked on every scheme used)",
         "rayon's par_sort_unstable_by is a deterministic function of the slice and returns a permutation sorted by the comparator",
-        "approx 0.5.1 Ulps::default() for f64: epsilon = f64::EPSILON, max_ulps = 4 (transcribed from the crate source)",
+        "approx 0.5.1 Ulps for f64: |a-b| <= epsilon, else same sign and bit patterns within max_ulps = 4 (transcribed from the crate source; the code passes epsilon 0.0, read by the translator)",
         "partition, points and weights have the same length (MultiJagged performs no length check; a shorter partition array is "
         "written out of bounds through a raw pointer)",
     ],
